@@ -182,7 +182,7 @@ def run_threads(programs, preemptions, start_order, trace_files, setup_lock):
     first = sched.order[0]
     sched.current = first
     sched.events[first].set()
-    ok = sched.main_event.wait(timeout=20)
+    ok = sched.main_event.wait(timeout=10)
     deadlock = None
     if sched.error is not None:
         deadlock = str(sched.error)
